@@ -13,9 +13,10 @@ package embedding
 //@ func (*Index).SemanticScores
 //@   modifies nothing
 //@   ensures[C19.scores-fresh] fresh(result)
-//@   trusted-ensures[C19.cosine-range] forall k int :: 0 <= k && k < len(result) ==> -1.0 <= result[k] && result[k] <= 1.0
+//@   ensures[C19.scores-range] forall k int :: 0 <= k && k < len(result) ==> -1.0 <= result[k] && result[k] <= 1.0
 //@ loop 1
 //@   invariant len(scores) == len(idx.CmdEmbeddings) && fresh(scores)
+//@   invariant forall k int :: 0 <= k && k < $i ==> -1.0 <= scores[k] && scores[k] <= 1.0
 //@ func (*Index).EmbedQuery
 //@ loop 1
 //@   invariant len(sum) == idx.Dimension && fresh(sum) && count >= 0
@@ -57,5 +58,6 @@ package embedding
 //@   modifies nothing
 //@   ensures[C19.cosine-degenerate] (len(a) != len(b) || len(a) == 0) ==> result == 0.0
 //@   ensures[C19.cosine-zero-vector] len(a) == len(b) && (allZero(a, len(a)) || allZero(b, len(b))) ==> result == 0.0
+//@   ensures[C19.cosine-range] -1.0 <= result && result <= 1.0
 //@ loop 1
 //@   invariant len(a) == len(b) && (allZero(a, $i) ==> normA == 0.0) && (allZero(b, $i) ==> normB == 0.0)
